@@ -287,6 +287,7 @@ func RunParent(id, tier string) int {
 	}
 	defer os.RemoveAll(scratch)
 
+	os.RemoveAll(filepath.Join(VerifDir, "replays", id)) // witnesses of earlier runs are stale
 	st := &runStats{classes: map[string]int{}, obs: map[string]int{}}
 	var mu sync.Mutex
 	Parallel(len(batches), procWidth(), func(i int) {
